@@ -11,7 +11,41 @@ import (
 )
 
 func (e *Engine) newUnit(fn *ssa.Function) *Unit {
-	return &Unit{eng: e, sorts: newSorts(), fn: fn, heapSort: map[string]string{}, initHeap: map[string]string{},
+	u := e.newUnit0(fn)
+	// map-value heaps of registries declared "distinct": known before any heap version is created
+	for key, inv := range e.mapInv {
+		if !strings.Contains(inv, "distinct") || !strings.HasPrefix(key, "F:") {
+			continue
+		}
+		parts := strings.Split(key[2:], ".")
+		if len(parts) != 3 {
+			continue
+		}
+		for _, sp := range e.L.SSA {
+			if sp == nil || sp.Pkg.Name() != parts[0] {
+				continue
+			}
+			tn, ok := sp.Pkg.Scope().Lookup(parts[1]).(*types.TypeName)
+			if !ok {
+				continue
+			}
+			stt, ok := tn.Type().Underlying().(*types.Struct)
+			if !ok {
+				continue
+			}
+			for i := 0; i < stt.NumFields(); i++ {
+				if mt, ok := stt.Field(i).Type().Underlying().(*types.Map); ok && stt.Field(i).Name() == parts[2] {
+					key := u.sorts.typeKey(mt.Key()) + "=>" + u.sorts.typeKey(mt.Elem())
+					u.distinctHeaps["MV:"+key] = u.sorts.sortOf(mt.Key())
+				}
+			}
+		}
+	}
+	return u
+}
+
+func (e *Engine) newUnit0(fn *ssa.Function) *Unit {
+	return &Unit{eng: e, distinctHeaps: map[string]string{}, sorts: newSorts(), fn: fn, heapSort: map[string]string{}, initHeap: map[string]string{},
 		obNames: map[string]int{}, abstracted: map[string]int{}, externsUsed: map[string]bool{}, defaultExt: map[string]bool{},
 		dynCalls: map[string]bool{}, values: map[string]string{}, contractsUsed: map[string]bool{}, assertsSeen: map[string]bool{}, nonNil: map[string]bool{}}
 }
@@ -72,8 +106,15 @@ func (e *Engine) verifyFunc(fn *ssa.Function) (u *Unit) {
 	// calling are checked at their call sites: requires NoLocksHeld() / inlining)
 	u.heapSet(st, "GH:locks", "(Array Int Int)", "((as const (Array Int Int)) 0)")
 	u.emitAxioms(fr, st)
+	isInit := fn.Name() == "init" && fn.Synthetic != "" && fn.Pkg != nil
+	var establish []*GlobalInv
 	for _, gi := range e.globalInvs {
 		c := &Clause{Fn: gi.Fn, FnName: gi.FnName, Label: gi.Label}
+		if isInit && gi.Checked && gi.Fn.Pkg == fn.Pkg {
+			// the package initialiser is where the invariant is established: proved at its exit, not assumed at its entry
+			establish = append(establish, gi)
+			continue
+		}
 		u.assume("true", fr.evalSpec(c, nil, st, nil))
 		if gi.Checked {
 			u.globalInvsUsed = append(u.globalInvsUsed, "globalinv (variables never assigned outside init): "+gi.Text)
@@ -107,13 +148,17 @@ func (e *Engine) verifyFunc(fn *ssa.Function) (u *Unit) {
 			}
 			if len(fr.rets) <= 1 || c.Merged {
 				t := fr.evalSpec(c, append(append([]*Val{}, params...), res...), exitSt, pre)
-				u.oblige(fr.obName("ensures", c.Label), "ensures", c.Tags, exitReach, t, fr.pos(fn.Pos()), c.Text)
+				if ob := u.oblige(fr.obName("ensures", c.Label), "ensures", c.Tags, exitReach, t, fr.pos(fn.Pos()), c.Text); ob != nil {
+					ob.SpecFn = c.FnName
+				}
 				continue
 			}
 			// one query per return site: each has a concrete path, which the solvers handle far better
 			for ri, r := range fr.retsByPos() {
 				t := fr.evalSpec(c, append(append([]*Val{}, params...), r.vals...), r.st, pre)
-				u.oblige(fr.obName("ensures", fmt.Sprintf("%s@ret%d", c.Label, ri+1)), "ensures", c.Tags, r.reach, t, r.pos, c.Text)
+				if ob := u.oblige(fr.obName("ensures", fmt.Sprintf("%s@ret%d", c.Label, ri+1)), "ensures", c.Tags, r.reach, t, r.pos, c.Text); ob != nil {
+					ob.SpecFn = c.FnName
+				}
 			}
 		}
 	}
@@ -135,6 +180,11 @@ func (e *Engine) verifyFunc(fn *ssa.Function) (u *Unit) {
 					"anchor call site not found: "+cl.Callee+" #"+fmt.Sprint(cl.Ordinal)+" -- "+cl.Text)
 			}
 		}
+	}
+	for _, gi := range establish {
+		c := &Clause{Fn: gi.Fn, FnName: gi.FnName, Label: gi.Label}
+		u.oblige(fr.obName("globalinv", gi.Label), "ensures", nil, exitReach, fr.evalSpec(c, nil, exitSt, nil), fr.pos(fn.Pos()),
+			"package initialisation establishes the global invariant: "+gi.Text)
 	}
 	if u.locksUsed {
 		for ri, r := range fr.retsByPos() {
